@@ -464,7 +464,7 @@ def run_histories(ctx):
     quick = ctx.tier == "quick"
     tgs = G.targets("asan")
     bins = build_or_fail([t for t, _ in tgs])
-    nrand = 250 if quick else 6000
+    nrand = 150 if quick else 6000
     stats = dict(ops={}, resize_refused=0, resize_accepted=0, resize_unsupported_form=0, refused_classes=set(), states=set(),
                  cast_kind=set(), cast_kind_unsupported=set(), cast_dtype=set(), cast_dtype_unsupported=set())
     dec = Decider(ctx, stats)
